@@ -333,7 +333,9 @@ class Interp:
         if key in self.divs:
             return Lin({self.divs[key]: 1}, 0)
         r = self.mod_lin(lin, m)  # remainder symbol (or folded form)
-        q = Sym("(%s)//%d" % (lin, m), meta=("div", lin, m))
+        qlo = lo // m if lo > -INF and m > 0 else (-INF)
+        qhi = hi // m if hi < INF and m > 0 else INF
+        q = Sym("(%s)//%d" % (lin, m), qlo, qhi, meta=("div", lin, m))
         self.divs[key] = q
         if len(r.terms) == 1 and r.const == 0:
             rs = next(iter(r.terms))
@@ -632,6 +634,14 @@ class Interp:
         if op is ast.Mult and isinstance(a, str) and isinstance(b, Lin):
             return AbsStr([Rep(a, b)])
         if op is ast.Mod and isinstance(a, str):
+            # the text is not modelled, the arity error is: "...%s..." % (x, y) raises TypeError
+            import re as _re
+            nspec = len(_re.findall(r"%(?!%)", a.replace("%%", "")))
+            named = bool(_re.search(r"%\(", a))
+            if not named and isinstance(b, tuple) and len(b) != nspec:
+                raise RaiseEx("TypeError", node)
+            if not named and not isinstance(b, tuple) and nspec != 1 and not isinstance(b, (dict, Opaque)):
+                raise RaiseEx("TypeError", node)
             return Opaque("format", [b])
         if isinstance(a, Opaque) or isinstance(b, Opaque):
             return Opaque("binop", [a, b])
@@ -1766,6 +1776,8 @@ class Interp:
                 return ABuiltin("int")
             if isinstance(v, (AbsStr, Ch)):
                 return ABuiltin("str")
+        if name == "bool" and len(args) == 1 and _has_abs(args[0]):
+            return self.truth(args[0], node)
         if name == "dict":
             out = {}
             if args:
@@ -2091,6 +2103,12 @@ class Interp:
         name = None
         if isinstance(e, ast.Call):
             name = norm(e.func).split(".")[-1]
+            # building the message runs before the raise: a formatting error there is what the caller sees
+            for a in list(e.args) + [k.value for k in e.keywords]:
+                try:
+                    self.eval(a, frame)
+                except CannotDecide:
+                    pass  # the text of the message is not modelled
         else:
             name = norm(e).split(".")[-1]
         raise RaiseEx(name, st)
